@@ -25,7 +25,8 @@ RULE = ("(a) default registry, keyword side: the shipped keyword directory is wa
         "existing modules, or all when no include list) minus excluded; (d) custom keyword directories (empty files, blank "
         "lines, CRLF, nested dirs, duplicate words, equal file names in different sub-directories): registry == one searcher "
         "per non-empty file + all analyzers, shipped keywords absent; (e) histories of build_registry calls in one process (every "
-        "result must be what its own arguments ask for). distinct_nontrivial = distinct configurations judged.")
+        "result must be what its own arguments ask for). Names are passed as eight kinds of iterable (list, tuple, set, frozenset, generator, iterator, dict keys, map) through both entry points; keyword files also use CR-only and mixed line ends, dot-file / extension / spaced names. "
+        "distinct_nontrivial = distinct configurations judged.")
 ASSUMPTIONS = ["an empty include list is not asserted either way (the statement says 'if no include list')",
                "file lines are taken with bytes.splitlines(), as the documentation of the keyword files implies one word per line"]
 EXPECTED_WALL = {"quick": 30, "thorough": 200}
